@@ -563,7 +563,14 @@ def call_by_contract(engine, c, fi, args, kwargs, st, node):
                 post = post.with_ghost("alive", z3.Store(al, result.t, z3.BoolVal(True)))
         post = post.assume(*normal_extra)
         for name, text in c.ensures.items():
-            g, post = spec_bool(engine, text, post, extra={"result": result}, ctx=ctx)
+            try:
+                g, post = spec_bool(engine, text, post, extra={"result": result}, ctx=ctx)
+            except OutsideSubset as e:
+                if "unresolved name" in str(e):
+                    # the clause talks about a LOCAL of the callee (checked when the callee is verified): a caller cannot
+                    # state it, so it learns nothing from it (sound: fewer assumptions)
+                    continue
+                raise
             # inside a specification the call is part of a merged term: what the contract says about its (fresh) result
             # must survive the merge, so it is recorded as a fact instead of a branch condition
             post = post.with_facts([g]) if in_spec else post.assume(g)
